@@ -35,9 +35,10 @@ CLASSES: Dict[str, List[Tuple[str, ...]]] = {      # (name, pattern[, refinement
         ("date-with-trailing-text", r"\d{4}-\d{2}-\d{2}.+"),
         ("date-one-digit-month-or-day", r"\d{4}-\d-\d{1,2}|\d{4}-\d{2}-\d"),
         ("date-one-digit-field-with-trailing-text", r"\d{4}-\d-\d.*|\d{4}-\d{2}-\d[^0-9].*|\d{4}-\d-\d{2}.+"),
+        ("date-in-year-0000", r"0000-\d{2}-\d{2}"),
         ("calendar-invalid-date", r"\d{4}-\d{2}-\d{2}"),
         ("unknown-indicator-letter-read-as-day", r"\d{4}-?[^ASQMWDasqmwd0-9-]\d+|\d{5,}"),
-        ("lenient-integer-cast", r"\d{4}(-[A-Za-z]|[A-Za-z]|-)[0-9+\-._eExXa-fA-F ]*[+\-._eExXa-fA-F ][0-9+\-._eExXa-fA-F ]*"),
+        ("lenient-integer-cast", r"\d{4}(-[A-Za-z]|[A-Za-z]|-)[0-9+\-._eExXa-fA-F \t]*[+\-._eExXa-fA-F \t][0-9+\-._eExXa-fA-F \t]*"),
     ],
     "Date": [
         ("empty-string", r""),
@@ -193,6 +194,14 @@ def _iso_weeks(y: int) -> int:
     return datetime.date(y, 12, 28).isocalendar()[1]
 
 
+def _days_of(y: int) -> List[datetime.date]:
+    """every day of civil year y (empty outside datetime's range 1..9999)."""
+    if not 1 <= y <= 9999:
+        return []
+    first = datetime.date(y, 1, 1)
+    return [first + datetime.timedelta(days=k) for k in range(366 if _leap(y) else 365)]
+
+
 def period_family(years: Sequence[int]) -> List[str]:
     """Every period of the given years in every documented / permissive spelling, plus the numbers just outside."""
     out: List[str] = []
@@ -213,14 +222,11 @@ def period_family(years: Sequence[int]) -> List[str]:
             if ind == "M":
                 for n in range(0, 15):
                     out += [f"{ys}-{n}", f"{ys}-{n:02d}"]
-        d = datetime.date(max(y, 1), 1, 1)
-        while d.year == max(y, 1):
-            if y >= 1:
-                out.append(f"{ys}-{d.month:02d}-{d.day:02d}")
-                if d.day in (1, 9, 10, 28, 29, 30, 31):
-                    out += [f"{ys}-{d.month}-{d.day}", f"{ys}-{d.month:02d}-{d.day}", f"{ys}-{d.month}-{d.day:02d}",
-                            f"{ys}{d.month:02d}{d.day:02d}"]
-            d += datetime.timedelta(days=1)
+        for d in _days_of(y):
+            out.append(f"{ys}-{d.month:02d}-{d.day:02d}")
+            if d.day in (1, 9, 10, 28, 29, 30, 31):
+                out += [f"{ys}-{d.month}-{d.day}", f"{ys}-{d.month:02d}-{d.day}", f"{ys}-{d.month}-{d.day:02d}",
+                        f"{ys}{d.month:02d}{d.day:02d}"]
         for m, dd in ((2, 29), (2, 30), (4, 31), (13, 1), (0, 1), (1, 0), (1, 32), (12, 32)):
             out.append(f"{ys}-{m:02d}-{dd:02d}")
         out += [f"{ys}-01-15garbage", f"{ys}-01-1x", f"{ys}-01-15T00:00:00", f"{ys}-01-15 00:00:00", f" {ys}Q1", f"{ys}Q1 ",
@@ -232,16 +238,13 @@ def date_family(years: Sequence[int]) -> List[str]:
     out: List[str] = []
     for y in years:
         ys = f"{y:04d}"
-        if 1 <= y <= 9999:
-            d = datetime.date(y, 1, 1)
-            while d.year == y:
-                iso = f"{ys}-{d.month:02d}-{d.day:02d}"
-                out.append(iso)
-                if d.day in (1, 9, 10, 28, 29, 30, 31):
-                    out += [f"{ys}-{d.month}-{d.day}", f"{ys}-{d.month:02d}-{d.day}", f"{ys}-{d.month}-{d.day:02d}",
-                            f"{ys}{d.month:02d}{d.day:02d}", iso + " 00:00:00", iso + "T23:59:59", iso + "T24:00:00",
-                            iso + "T10:30", iso + "T10:30:00Z", iso + "T10:30:00+01:00", iso + "T10:30:00.123", iso + "x"]
-                d += datetime.timedelta(days=1)
+        for d in _days_of(y):
+            iso = f"{ys}-{d.month:02d}-{d.day:02d}"
+            out.append(iso)
+            if d.day in (1, 9, 10, 28, 29, 30, 31):
+                out += [f"{ys}-{d.month}-{d.day}", f"{ys}-{d.month:02d}-{d.day}", f"{ys}-{d.month}-{d.day:02d}",
+                        f"{ys}{d.month:02d}{d.day:02d}", iso + " 00:00:00", iso + "T23:59:59", iso + "T24:00:00",
+                        iso + "T10:30", iso + "T10:30:00Z", iso + "T10:30:00+01:00", iso + "T10:30:00.123", iso + "x"]
         for w in range(0, 55):
             for dow in (0, 1, 7, 8):
                 out += [f"{ys}-W{w:02d}-{dow}", f"{ys}W{w:02d}{dow}"]
@@ -299,7 +302,8 @@ BOUNDARY: Dict[str, List[str]] = {
                     "2020-01-15garbage", "2020-01-1x", "2020-01-15T10:00:00", "20200115", "2020X15", "2020q1", "2020-q1", "2020w1",
                     " 2020Q1", "2020Q1 ", " 2020Q1 ", "2020M+5", "2020M 5", "2020M5.4", "2020M1e1", "2020M0x5", "2020M1_0", "2020-M+5",
                     "2020-+5", "2020- 5", "2020-5.4", "2020D1e2", "0000", "0000A", "0001Q1", "9999M12", "9999-12-31", "999", "20201",
-                    "2020-", "2020Q", "abcd", "", " ", "Q12020", "2020/01", "2020-W", "1799-12-31", "1800Q1"],
+                    "2020-", "2020Q", "abcd", "", " ", "Q12020", "2020/01", "2020-W", "1799-12-31", "1800Q1",
+                    "0000-01-01", "0000-02-29", "0001-01-01", "0999-12-31", "0999Q4", "0000W01", "0000D366", "0000-D366"],
     "Date": ["2020-01-15", "2020-1-5", "2020-01-5", "2020-1-05", "2020-12-31", "2020-02-29", "2021-02-29", "2020-02-30", "2020-13-01",
              "2020-00-10", "2020-01-00", "2020-01-32", "1799-12-31", "1800-01-01", "9999-12-31", "0001-01-01", "0000-01-01", "1700-01-01T00:00:00",
              "1799-1-1", "20200115", "2020010199", "2020-W10", "2020-W10-3", "2020W10", "2020W103", "2020-W53-1", "2021-W53-1", "2020-W00-1",
